@@ -286,11 +286,27 @@ def check_scan(ctx, scs, via_cli, scratch, shared=False):
         twice = hash(str(scs)) % 3 == 0
         if twice:
             # two input files whose names differ only in the directory (hap1/qc.agp hap2/qc.agp): each is reported
-            for sub in ("hap1", "hap2"):
+            # ... and, when the assembly can be written as TPF, the two files are of different formats (each is read
+            # by the parser its own extension asks for)
+            mixed = all(rows and rows[0][0] == "F" for _, rows in scs) and hash(str(scs)) % 2 == 0
+            files_ = []
+            for k_, sub in enumerate(("hap1", "hap2")):
                 (Path(scratch) / sub).mkdir(exist_ok=True)
-                (Path(scratch) / sub / p.name).write_text(p.read_text())
+                for old_ in (Path(scratch) / sub).iterdir():
+                    old_.unlink()
+                if mixed and k_ == 1:
+                    from vf.ref import agp_ref as _ar
+                    from vf.ref import tpf_ref as _tr
+
+                    other = "qc.tpf" if p.suffix == ".agp" else "qc.agp"
+                    (Path(scratch) / sub / other).write_text((_tr if other.endswith(".tpf") else _ar).format({"header": [], "scaffolds": scs}))
+                    files_.append(Path(scratch) / sub / other)
+                    ctx.count("scan:cli-two-input-files-of-different-formats")
+                else:
+                    (Path(scratch) / sub / p.name).write_text(p.read_text())
+                    files_.append(Path(scratch) / sub / p.name)
             ctx.count("scan:cli-same-stem-in-two-directories")
-            res = CliRunner().invoke(cli, [str(Path(scratch) / "hap1" / p.name), str(Path(scratch) / "hap2" / p.name), "--qc-overlaps", *ofmt])
+            res = CliRunner().invoke(cli, [str(files_[0]), str(files_[1]), "--qc-overlaps", *ofmt])
             exp = [(a_, b_) for a_, b_ in exp] * 2
         elif hash(str(scs)) % 2:
             res = CliRunner().invoke(cli, [str(p), "--qc-overlaps", *ofmt])
@@ -395,6 +411,7 @@ def gates(c, tier):
         "scan:in-process-shared": 1000,
         "scan:in-process-rescan-after-edit": 2000,
         "scan:cli-same-stem-in-two-directories": 300,
+        "scan:cli-two-input-files-of-different-formats": 50,
         "scan:cli-output-format:STR": 200,
         "scan:cli-tpf-input": 100,
         "scan:crowded-assembly-with-780-pairs": 4,
